@@ -267,7 +267,7 @@ def run(index, rep, tier):
 
     # ---- R16.10 a state's derived fields are written by the state alone
     with rep.section("R16.10"):
-        rep.rule("R16.10", "a state's membership and what is derived from it are written through the state's own interface: `_member_states` and the caches computed from it (`_fundamental_*`, `_partials_vector`) are stored only by StateIdentity's own methods through `self` - the setter drops every derived cache, a hand-written subset elsewhere drifts from the list of caches the class actually keeps")
+        rep.rule("R16.10", "a state's membership and what is derived from it are written through the state's own interface: `_member_states` and the caches computed from it (`_fundamental_*`, `_partials_vector`) are given a value only by StateIdentity's own methods through `self` (anyone may DROP a derived cache by setting it to None) - the setter drops every derived cache, a hand-written subset elsewhere drifts from the list of caches the class actually keeps")
         SI = "dendropy.datamodel.charstatemodel.StateIdentity"
         si = index.klass(SI)
         own = set()
@@ -287,6 +287,8 @@ def run(index, rep, tier):
                         continue
                     n10 += 1
                     ok = fi.cls is not None and w.base is not None and norm(w.base) == "self" and w.via_alias is None   # a class's own field of that name (the alphabet keeps a _fundamental_states list of its own)
+                    # dropping a derived cache (`<state>._fundamental_indexes = None`) from outside is always safe: it only forces a recomputation
+                    ok = ok or (w.kind == "store" and w.attr != "_member_states" and w.value is not None and is_none(w.value))
                     rep.check(ok, "R16.10", fi.qualname, "`%s.%s` written from outside the state" % (w.base_text, w.attr), fn_where(fi, w.stmt),
                               "%s: %s.%s written by the state itself" % (fi.name, w.base_text, w.attr),
                               "%s writes `%s.%s` directly: the state's setter is the one place that knows every cache derived from the membership (fundamental states, symbols, indexes with and without gaps as missing, partials); a write that bypasses it leaves some of them describing the old membership, and scores computed after the alphabet was extended use the stale state sets" % (fi.qualname, w.base_text, w.attr))
@@ -339,3 +341,51 @@ def run(index, rep, tier):
                           "%s: %s goes to a list built here" % (fi.name, what),
                           "%s: %s writes in place into `%s`, which is %s: state-set lists read from a node attribute or from taxon_state_sets_map are the caller's (the same list serves every tree scored against the matrix and the matrix-derived map itself), so refilling one corrupts the leaf states of later scoring calls" % (fi.qualname, what, nm, "a parameter" if not vals else "bound to `%s`" % "`, `".join(sorted({norm(v)[:40] if v is not None else "an unpacked value" for v in vals}))))
         rep.floor("R16.11", "in-place writes in the parsimony module", 4, n11)
+
+    # ---- R16.12 a cache follows every field it was computed from
+    with rep.section("R16.12"):
+        rep.rule("R16.12", "a cache follows every field it was computed from: a lazily computed cache of StateIdentity whose getter reads a designation field that the ALPHABET assigns from outside (`_index`, `is_gap_state`, `gap_state_as_no_data_state`) is dropped - set to None on the same state, or through a StateIdentity method that does so - by every function that assigns that field; otherwise a state scored once keeps the index set of the old designation (a gap read as missing data stops covering states added later, and a gap designated after a first scoring call is still scored as an ordinary state)")
+        SI = "dendropy.datamodel.charstatemodel.StateIdentity"
+        sic = index.klass(SI)
+        getters = {}
+        for m_ in sic.methods.values():
+            for iff in walk_no_nested(m_.node):
+                if isinstance(iff, ast.If):
+                    cp = compare_parts(iff.test)
+                    if cp and cp[1] == "Is" and is_none(cp[2]) and isinstance(cp[0], ast.Attribute) and norm(cp[0].value) == "self":
+                        x = cp[0].attr
+                        if any(isinstance(a, ast.Assign) and norm(a.targets[0]) == "self." + x for a in ast.walk(iff)):
+                            getters[x] = m_
+        own_fields = {w.attr for w in writes_in(sic.methods["__init__"].node) if w.base is not None and norm(w.base) == "self"}
+        resetters = {}
+        for m_ in sic.methods.values():
+            rs = {w.attr for w in writes_in(m_.node) if w.kind == "store" and w.base is not None and norm(w.base) == "self" and w.value is not None and is_none(w.value)}
+            if rs:
+                resetters[m_.name] = rs
+        props = {}
+        for st in sic.node.body:
+            if isinstance(st, ast.Assign) and isinstance(st.value, ast.Call) and call_name(st.value) == "property" and len(st.value.args) > 1:
+                props[norm(st.targets[0])] = norm(st.value.args[1])
+        n12 = 0
+        for fi in index.functions_in_module("dendropy.datamodel.charstatemodel"):
+            outside = [w for w in writes_in(fi.node) if w.kind == "store" and w.attr in own_fields and w.base is not None and norm(w.base) != "self" and w.attr not in getters]
+            for w in outside:
+                need = sorted(c_ for c_, g_ in getters.items() if any(isinstance(x, ast.Attribute) and x.attr == w.attr and isinstance(x.ctx, ast.Load) for x in ast.walk(g_.node)))
+                if not need:
+                    continue
+                n12 += 1
+                base = norm(w.base)
+                dropped = set()
+                for w2 in writes_in(fi.node):
+                    if w2.base is not None and norm(w2.base) == base and w2.kind == "store":
+                        if w2.value is not None and is_none(w2.value):
+                            dropped.add(w2.attr)
+                        if w2.attr in props and props[w2.attr] in resetters:
+                            dropped |= resetters[props[w2.attr]]
+                for c in calls_in(fi.node):
+                    if isinstance(c.func, ast.Attribute) and norm(c.func.value) == base and c.func.attr in resetters:
+                        dropped |= resetters[c.func.attr]
+                missing = [c_ for c_ in need if c_ not in dropped]
+                rep.check(not missing, "R16.12", fi.qualname, "`%s.%s` assigned, %s kept" % (base, w.attr, missing), fn_where(fi, w.stmt), "%s: %s.%s assigned and %s dropped" % (fi.name, base, w.attr, need),
+                          "%s assigns `%s.%s` but leaves the state's cached %s in place, although the getter of that cache reads `%s`: a state whose index set was computed once (by an earlier scoring call) keeps it after the alphabet is recompiled - the gap, read as missing data, does not cover a fundamental state added later, and a symbol designated as the gap after a first scoring call is still scored as an ordinary state, so the score of (tree, matrix) depends on what the alphabet was used for before" % (fi.qualname, base, w.attr, ", ".join(missing), w.attr))
+        rep.floor("R16.12", "assignments of designation fields from outside the state", 3, n12)
